@@ -1102,7 +1102,11 @@ def run(ctx):
                 tuples = [(corpus_e2e[scen].get("cfg"), corpus_e2e[scen].get("filter"))]
             else:
                 events = gen_e2e_events(r)
-                tuples = [(gen_e2e_cfg(r, events), None), (gen_e2e_cfg(r, events), None), (None, gen_e2e_filter(r)),
+                xs_ = [e for e in events if e.get("ph") == "X"]
+                edge = r.choice(xs_) if xs_ else None
+                tuples = ([({"ts_start": float(edge["ts"] + edge["dur"])}, None),       # window opens exactly where a slice ends
+                           ({"ts_end": float(edge["ts"])}, None)] if edge else []) + \
+                         [(gen_e2e_cfg(r, events), None), (gen_e2e_cfg(r, events), None), (None, gen_e2e_filter(r)),
                           (gen_e2e_cfg(r, events), gen_e2e_filter(r)), (gen_e2e_cfg(r, events), gen_e2e_filter(r))]
             base = drive_e2e(work, events, None, None)
             alluids = sorted(o_uid(e) for e in events if e["ph"] == "X")
